@@ -242,6 +242,11 @@ def run_validate(chk, scenarios, label, shards=6, featurize=None, on_result=None
         if on_result is not None:
             on_result(scn, res)
         for note in res.get("notes", []):
+            if note["kind"] == "result_awaited":
+                chk.report({"kind": "result_awaited", "label": label},
+                           f"{label}: the awaitable object that coroutine callback {note['c']} returned as its result was awaited "
+                           f"by the library (a coroutine callback's result is a value, whatever it is)", {"scenario": scn})
+                break
             if note["kind"] == "stored_value_replaced":
                 chk.report({"kind": "stored_value_replaced", "label": label},
                            f"{label}: a machine was created over a model whose stored state is a member of a mixed-in enum equal to "
